@@ -105,14 +105,17 @@ pub fn dispatch(ty: &str, input: Vec<u8>, light: bool) -> J {
         "header" => codec_type!(csl::Header, input, light),
         "operational_cert" => codec_type!(csl::OperationalCert, input, light),
         "pool_params" => codec_type!(csl::PoolParams, input, light),
+        "versioned_block" => codec_type!(csl::VersionedBlock, input, light),
         "vkeywitnesses" => codec_type!(csl::Vkeywitnesses, input, light),
         "bootstrap_witnesses" => codec_type!(csl::BootstrapWitnesses, input, light),
         _ => json!({"err": "harness: unknown type"}),
     }
 }
 
+/// serialize a constructed value; "same" = "yes" when its own bytes decode to a value equal to the one that was built
+macro_rules! fin { ($name:expr, $ty:ty, $v:expr) => {{ let v: $ty = $v; let b = v.to_bytes(); let same = match <$ty>::from_bytes(b.clone()) { Ok(w) => json!(if w == v { "yes" } else { "no" }), Err(_) => json!("undecodable") }; Ok(($name, b, same)) }}; }
 /// construct-first: a value is built through a validating constructor of the typed API, then takes the same route as a decoded one
-fn construct(s: &J) -> Result<(&'static str, Vec<u8>), String> {
+fn construct(s: &J) -> Result<(&'static str, Vec<u8>, J), String> {
     let e = |x: csl::JsError| format!("{:?}", x);
     let text = |v: &J| -> String { String::from_utf8(get_bytes(v)).unwrap_or_default() };
     match s["what"].as_str().unwrap() {
@@ -120,19 +123,32 @@ fn construct(s: &J) -> Result<(&'static str, Vec<u8>), String> {
             let mut fields = csl::PlutusList::new();
             for i in 0..s["nfields"].as_u64().unwrap_or(0) { fields.add(&csl::PlutusData::new_integer(&csl::BigInt::from_str(&i.to_string()).map_err(e)?)); }
             let c = csl::ConstrPlutusData::new(&bn_of(&s["alt_n"]), &fields);
-            Ok(("plutus_data", csl::PlutusData::new_constr_plutus_data(&c).to_bytes()))
+            fin!("plutus_data", csl::PlutusData, csl::PlutusData::new_constr_plutus_data(&c))
         }
-        "md_text" => Ok(("metadatum", csl::TransactionMetadatum::new_text(text(&s["s"])).map_err(e)?.to_bytes())),
-        "md_bytes" => Ok(("metadatum", csl::TransactionMetadatum::new_bytes(get_bytes(&s["s"])).map_err(e)?.to_bytes())),
-        "md_map_text_key" => { let mut m = csl::MetadataMap::new(); m.insert_str(&text(&s["s"]), &csl::TransactionMetadatum::new_int(&csl::Int::new_i32(1))).map_err(e)?; Ok(("metadatum", csl::TransactionMetadatum::new_map(&m).to_bytes())) }
-        "md_json" => Ok(("metadatum", csl::encode_json_str_to_metadatum(text(&s["s"]), csl::MetadataJsonSchema::NoConversions).map_err(e)?.to_bytes())),
+        "md_text" => fin!("metadatum", csl::TransactionMetadatum, csl::TransactionMetadatum::new_text(text(&s["s"])).map_err(e)?),
+        "md_bytes" => fin!("metadatum", csl::TransactionMetadatum, csl::TransactionMetadatum::new_bytes(get_bytes(&s["s"])).map_err(e)?),
+        "md_map_text_key" => { let mut m = csl::MetadataMap::new(); m.insert_str(&text(&s["s"]), &csl::TransactionMetadatum::new_int(&csl::Int::new_i32(1))).map_err(e)?; fin!("metadatum", csl::TransactionMetadatum, csl::TransactionMetadatum::new_map(&m)) }
+        "md_json" => fin!("metadatum", csl::TransactionMetadatum, csl::encode_json_str_to_metadatum(text(&s["s"]), csl::MetadataJsonSchema::NoConversions).map_err(e)?),
         "asset_name" => { let n = csl::AssetName::new(get_bytes(&s["s"])).map_err(e)?; let mut a = csl::Assets::new(); a.insert(&n, &csl::BigNum::from(1u64)); let mut ma = csl::MultiAsset::new(); ma.insert(&csl::ScriptHash::from_bytes(vec![7; 28]).unwrap(), &a);
-                          Ok(("value", csl::Value::new_with_assets(&csl::BigNum::from(1u64), &ma).to_bytes())) }
+                          fin!("value", csl::Value, csl::Value::new_with_assets(&csl::BigNum::from(1u64), &ma)) }
         "url_anchor" => { let a = csl::Anchor::new(&csl::URL::new(text(&s["s"])).map_err(e)?, &csl::AnchorDataHash::from_bytes(vec![9; 32]).unwrap());
-                          Ok(("certificate", csl::Certificate::new_drep_update(&csl::DRepUpdate::new_with_anchor(&csl::Credential::from_keyhash(&csl::Ed25519KeyHash::from_bytes(vec![1; 28]).unwrap()), &a)).to_bytes())) }
-        "plutus_bytes" => Ok(("plutus_data", csl::PlutusData::new_bytes(get_bytes(&s["s"])).to_bytes())),
-        "plutus_int" => Ok(("plutus_data", csl::PlutusData::new_integer(&csl::BigInt::from_str(&text(&s["s"])).map_err(e)?).to_bytes())),
-        "donation" => { let ins = csl::TransactionInputs::new(); let mut b = csl::TransactionBody::new_tx_body(&ins, &csl::TransactionOutputs::new(), &csl::BigNum::from(1u64)); b.set_donation(&bn_of(&s["n"])); Ok(("body", b.to_bytes())) }
+                          fin!("certificate", csl::Certificate, csl::Certificate::new_drep_update(&csl::DRepUpdate::new_with_anchor(&csl::Credential::from_keyhash(&csl::Ed25519KeyHash::from_bytes(vec![1; 28]).unwrap()), &a))) }
+        "plutus_bytes" => fin!("plutus_data", csl::PlutusData, csl::PlutusData::new_bytes(get_bytes(&s["s"]))),
+        "plutus_int" => fin!("plutus_data", csl::PlutusData, csl::PlutusData::new_integer(&csl::BigInt::from_str(&text(&s["s"])).map_err(e)?)),
+        "donation" => { let ins = csl::TransactionInputs::new(); let mut b = csl::TransactionBody::new_tx_body(&ins, &csl::TransactionOutputs::new(), &csl::BigNum::from(1u64)); b.set_donation(&bn_of(&s["n"])); fin!("body", csl::TransactionBody, b) }
+        // an output paying to every kind of address the constructors give (Byron with one / both attributes, pointers, scripts)
+        "out_addr" => fin!("output", csl::TransactionOutput, csl::TransactionOutput::new(&crate::mk::addr(&s["addr"]), &csl::Value::new(&csl::BigNum::from(1_000_000u64)))),
+        // decode one form, change the value through the setters, encode again: the container has to follow the content
+        "out_decode_then_set" => {
+            let mut o = csl::TransactionOutput::from_bytes(get_bytes(&s["bytes"])).map_err(|x| format!("{:?}", x))?;
+            match s["set"].as_str().unwrap_or("") {
+                "inline" => o.set_plutus_data(&csl::PlutusData::new_integer(&csl::BigInt::from_str("7").map_err(e)?)),
+                "hash" => o.set_data_hash(&csl::DataHash::from_bytes(vec![9; 32]).map_err(|x| format!("{:?}", x))?),
+                "script" => o.set_script_ref(&csl::ScriptRef::new_plutus_script(&csl::PlutusScript::new_v2(vec![1, 2, 3]))),
+                _ => {}
+            }
+            fin!("output", csl::TransactionOutput, o)
+        }
         w => Err(format!("harness: unknown construct {}", w)),
     }
 }
@@ -140,7 +156,7 @@ fn construct(s: &J) -> Result<(&'static str, Vec<u8>), String> {
 pub fn run_one(out: &mut Out, sc: usize, s: &J) {
     if s.get("kind").and_then(|k| k.as_str()) == Some("construct") {
         match call(|| construct(s)) {
-            Outcome::Ok((ty, b)) => { let r = dispatch(ty, b.clone(), false); out.ev(json!({"ev": "Codec", "sc": sc, "type": ty, "in": jbytes(&b), "constructed": s["what"], "r": r})); }
+            Outcome::Ok((ty, b, same)) => { let r = dispatch(ty, b.clone(), false); out.ev(json!({"ev": "Codec", "sc": sc, "type": ty, "in": jbytes(&b), "constructed": s["what"], "constructed_same": same, "r": r})); }
             Outcome::Err(e) => out.ev(json!({"ev": "Constructed", "sc": sc, "what": s["what"], "refused": ascii(&e)})),
             Outcome::Panic(p) => out.ev(json!({"ev": "Constructed", "sc": sc, "what": s["what"], "panic": p})),
         }
@@ -173,6 +189,19 @@ pub fn construct_scenarios() -> Vec<J> {
         v.push(json!({"kind": "construct", "what": "plutus_int", "s": jtext(st)}));
     }
     for n in [1u64, 23, 24, u64::MAX] { v.push(json!({"kind": "construct", "what": "donation", "n": jn(n)})); }
+    for kind in ["ent", "base", "byron", "ptr", "script_ent", "script_base", "reward"] { for k in [1u64, 2] { for magic in [764824073u64, 1097911063, 1] {
+        if kind != "byron" && magic != 1 { continue; }
+        v.push(json!({"kind": "construct", "what": "out_addr", "addr": {"kind": kind, "k": k, "net": magic % 2, "magic": magic}}));
+    } } }
+    // outputs in each container form, then a setter that the form may not be able to carry
+    let addr: Vec<u8> = [vec![0x58u8, 0x1d, 0x61], vec![7u8; 28]].concat();
+    let legacy2: Vec<u8> = [vec![0x82u8], addr.clone(), vec![0x01]].concat();
+    let legacy3: Vec<u8> = [vec![0x83u8], addr.clone(), vec![0x01, 0x58, 0x20], vec![9u8; 32]].concat();
+    let map2: Vec<u8> = [vec![0xa2u8, 0x00], addr.clone(), vec![0x01, 0x01]].concat();
+    let map3: Vec<u8> = [vec![0xa3u8, 0x00], addr.clone(), vec![0x01, 0x01, 0x02, 0x82, 0x01, 0xd8, 0x18, 0x41, 0x05]].concat();
+    for b in [legacy2, legacy3, map2, map3] { for set in ["inline", "hash", "script", "none"] {
+        v.push(json!({"kind": "construct", "what": "out_decode_then_set", "bytes": jbytes(&b), "set": set}));
+    } }
     v
 }
 
